@@ -3,6 +3,15 @@
 // bytes -> Ok(None) WHATEVER they are (the stream reader then waits for more: segmentation independence); 12 or more ->
 // magic check and 12 + attr_len + body_len.
 #![allow(dead_code, unused_variables, unused_mut)]
+// `tracing::level!(..)` written with its path by an edit keeps compiling (log statements have no effect on the checks)
+pub mod tracing {
+    macro_rules! trace { ($($t:tt)*) => { () } }
+    macro_rules! debug { ($($t:tt)*) => { () } }
+    macro_rules! info { ($($t:tt)*) => { () } }
+    macro_rules! warn_ { ($($t:tt)*) => { () } }
+    macro_rules! error { ($($t:tt)*) => { () } }
+    pub(crate) use {trace, debug, info, warn_ as warn, error};
+}
 use std::io::{Error as IoError, ErrorKind, Result as IoResult};
 macro_rules! format { ($($t:tt)*) => { "x" } }
 
